@@ -417,6 +417,29 @@ theorem c10_runOn_issues (env : Env P O T V) (ps pin : Bool) (cs : List (Check P
     (runChecksOn env ps pin cs v).issues = (runChecks env cs v).issues ∧
     ((runChecks env cs v).issues = [] → (runChecksOn env ps pin cs v).val = (runChecks env cs v).val) := by
   unfold runChecksOn
+  simp only
+  by_cases h1 : (pin && hasOverwrite cs) = true
+  · rw [if_pos h1]
+    by_cases hr : (runChecks env cs v).issues ≠ []
+    · rw [if_pos hr]; exact ⟨rfl, fun _ => rfl⟩
+    · rw [if_neg hr]
+      have hr' : (runChecks env cs v).issues = [] := Decidable.of_not_not hr
+      by_cases h2 : (ps && !(firstPassFrom env ps 0 cs v false []).hasIssue) = true
+      · rw [if_pos h2]
+        simp only [Bool.and_eq_true, Bool.not_eq_eq_eq_not, Bool.not_true] at h2
+        obtain ⟨hps, hfp⟩ := h2
+        subst hps
+        have := firstPass_early env cs 0 0 v [] [] hfp
+        simp only [runChecks] at hr' ⊢
+        exact ⟨hr'.symm, fun _ => this.2.symm⟩
+      · rw [if_neg h2]; exact ⟨hr'.symm, fun _ => rfl⟩
+  · rw [if_neg h1]; exact ⟨rfl, fun _ => rfl⟩
+
+/-- The same for `validatePointer` as it was up to /repo 49e6e91 (extra pass first). -/
+theorem c10_legacy_runOn_issues (env : Env P O T V) (ps pin : Bool) (cs : List (Check P O)) (v : V) :
+    (legacyRunChecksOn env ps pin cs v).issues = (runChecks env cs v).issues ∧
+    ((runChecks env cs v).issues = [] → (legacyRunChecksOn env ps pin cs v).val = (runChecks env cs v).val) := by
+  unfold legacyRunChecksOn
   by_cases h1 : (pin && hasOverwrite cs) = true
   · rw [if_pos h1]
     by_cases h2 : (ps && !(firstPassFrom env ps 0 cs v false []).hasIssue) = true
@@ -460,6 +483,29 @@ theorem c10_abort_stops_partial (env : Env P O T V) (ps pin : Bool) (cs : List (
     ∀ e ∈ (runChecksOn env ps pin cs v).log, e.pos ≤ k := by
   unfold runChecksOn at hk ⊢; rw [h] at hk ⊢; simp only [Bool.false_eq_true, ↓reduceIte] at hk ⊢
   exact (c10_abort_stops env cs v k hk ha).1
+
+/-- **Abort, over the whole log, every input** (full since /repo 49e6e91): a rejected input has run
+    the regular pass only, so nothing attached after an aborting failure is evaluated — also for
+    pointer inputs with overwrites attached. -/
+theorem c10_abort_stops_all (env : Env P O T V) : c10_abort_stops_full env := by
+  intro ps pin cs v k hk ha
+  have hi : (runChecksOn env ps pin cs v).issues = (runChecks env cs v).issues := (c10_runOn_issues env ps pin cs v).1
+  have hne : (runChecks env cs v).issues ≠ [] := by
+    rw [← hi]; intro h0; rw [h0] at hk; cases hk
+  have hrun : runChecksOn env ps pin cs v = runChecks env cs v := by
+    unfold runChecksOn
+    simp only
+    by_cases h1 : (pin && hasOverwrite cs) = true
+    · rw [if_pos h1, if_pos hne]
+    · rw [if_neg h1]
+  rw [hrun] at hk ⊢
+  exact (c10_abort_stops env cs v k hk ha).1
+
+/-- The abort statement for `validatePointer` as it was up to /repo 49e6e91. -/
+def c10_legacy_abort_stops_full (env : Env P O T V) : Prop :=
+  ∀ (ps pin : Bool) (cs : List (Check P O)) (v : V) (k : Nat),
+    k ∈ (legacyRunChecksOn env ps pin cs v).issues → abortAt cs k = true →
+    ∀ e ∈ (legacyRunChecksOn env ps pin cs v).log, e.pos ≤ k
 
 /-! ### Transform and Pipe -/
 
@@ -531,21 +577,23 @@ example :
     abortAt cs 3 = true ∧ seenAt demoEnv cs 2 3 = 13 := by decide
 
 /-- **Witness (known finding).** With a pointer input and an overwrite attached, the extra pass of
-    `validatePointer` evaluates a when-guard on a value that has *not* gone through the overwrite
-    attached before it, and invokes an overwrite attached after an aborting failure. -/
-theorem c10_first_pass_witness :
-    ¬ c10_value_threading_full demoEnv ∧ ¬ c10_abort_stops_full demoEnv := by
-  constructor
-  · intro h
-    -- value schema, pointer input: [overwrite(+10), pred(≥0) when(≥0)] on 3: the guard of check 1 sees 3, not 13
-    have := h false true [.overwrite 10, .pred 0 false (some 0)] 3 (.when 1 3) (by decide)
-    revert this; decide
-  · intro h
-    -- pointer schema, pointer input: [pred(≥0), pred(≥5) abort when(≥0), overwrite(+1)] on 3:
-    -- the pass over the pointer "fails" check 0, therefore skips the guarded check 1 and invokes
-    -- overwrite 2; the regular pass then fails check 1 with abort.
-    have := h true true [.pred 0 false none, .pred 5 true (some 0), .overwrite 1] 3 1
-      (by decide) (by decide) (.over 2 3) (by decide)
-    revert this; decide
+    `validatePointer` (run after an accepting regular pass) evaluates a when-guard on a value that has
+    *not* gone through the overwrite attached before it. -/
+theorem c10_first_pass_witness : ¬ c10_value_threading_full demoEnv := by
+  intro h
+  -- value schema, pointer input: [overwrite(+10), pred(≥0) when(≥0)] on 3: the guard of check 1 sees 3, not 13
+  have := h false true [.overwrite 10, .pred 0 false (some 0)] 3 (.when 1 3) (by decide)
+  revert this; decide
+
+/-- **Witness for the code up to /repo 49e6e91** (repaired there): with the extra pass first, an
+    overwrite attached after an aborting failure was invoked. -/
+theorem c10_legacy_first_pass_witness : ¬ c10_legacy_abort_stops_full demoEnv := by
+  intro h
+  -- pointer schema, pointer input: [pred(≥0), pred(≥5) abort when(≥0), overwrite(+1)] on 3:
+  -- the pass over the pointer "fails" check 0, therefore skips the guarded check 1 and invokes
+  -- overwrite 2; the regular pass then fails check 1 with abort.
+  have := h true true [.pred 0 false none, .pred 5 true (some 0), .overwrite 1] 3 1
+    (by decide) (by decide) (.over 2 3) (by decide)
+  revert this; decide
 
 end Gozod.C10
